@@ -307,6 +307,38 @@ def rule4(P, rep, apis):
                'blocking get inside the non-blocking wrapper is %scontrol-dependent on the emptiness peek (%s)' % ('' if dep else 'NOT ', conds))
 
 
+def rule5(P, rep):
+    """C14.5-NBQUIT: the polling API (svt_av1_enc_get_packet with pic_send_done == 0, svt_av1_get_recon) goes through
+    svt_get_full_object_non_blocking, which peeks and then delegates to the *blocking* get.  The blocking get consumes one
+    semaphore token and, on a FIFO in quit state, returns without popping.  So if anything can put an application-consumed FIFO
+    into quit state (svt_shutdown_process on the output-stream / output-recon resource), the peek must treat a quitting FIFO as
+    empty - otherwise each poll burns a token and the (queued + 2)-th poll sleeps for ever.  Conditional rule: vacuous while no
+    such shutdown exists, so deleting the (then dead) quit test alone does not alarm."""
+    app_res = ('_EbEncHandle.output_stream_buffer_resource_ptr_array', '_EbEncHandle.output_recon_buffer_resource_ptr_array')
+    shut = []
+    for f in P.fns:
+        if f.lib != 'Encoder' or f.nocfg:
+            continue
+        for ev, n in f.calls('svt_shutdown_process'):
+            lf = last_field(strip(ev['e'][2][0])) if ev['e'][2] else None
+            if lf in app_res:
+                shut.append((f, ev, lf))
+    nb = P.fn('svt_get_full_object_non_blocking')
+    guarded = False
+    for ev, n in nb.calls('svt_fifo_peak_front'):
+        for kind, cond, line in nb.ctl_chain(ev):
+            if cond is not None and not isinstance(cond[0], list) and 'EbFifo.quit_signal' in fields_in(cond):
+                guarded = True
+    ok = guarded or not shut
+    where = shut[0][0].loc(shut[0][1]) if shut else nb.loc()
+    rep.ob('C14.5-NBQUIT', 'svt_get_full_object_non_blocking/quit-aware-peek', ok, where,
+           ('no application-consumed FIFO is ever shut down (%s)' % ('peek is quit-aware as well' if guarded else 'the peek does not test quit_signal')) if not shut else
+           ('%s shuts down %s; the non-blocking get %s' % (shut[0][0].name, shut[0][2].split('.')[1],
+            'treats a quitting FIFO as empty' if guarded else
+            'still peeks a quitting FIFO as non-empty and delegates to the blocking get, which takes a token without popping: polling after that blocks for ever')),
+           nontrivial=True)
+
+
 def run(P, rep, tier):
     apis = api_functions(P)
     if len(apis) < 20:
@@ -326,7 +358,9 @@ def run(P, rep, tier):
     rule2(P, rep, apis)
     rule3(P, rep)
     rule4(P, rep, apis)
+    rule5(P, rep)
     rep.floor('C14.1-NULLDOM', 30)
     rep.floor('C14.2-PAIR', 1)
     rep.floor('C14.3-BOUND', 5)
     rep.floor('C14.4-BLOCK', 25)
+    rep.floor('C14.5-NBQUIT', 1)
